@@ -19,7 +19,7 @@ RULE = ('Hypothesis-generated histories of schedule(delta, action kind) / schedu
         'cancel(i) / advance(dt) ops (<= 50 ops; deadlines from 20 units in the past to 6000 units - more than five minutes in three of the four modes - ahead) for resolutions 0.25, 1 (times exact binary '
         'fractions), 0.01 (1 ms grid, 1 ms tolerance) and 0, interpreted against the real '
         'TimerQueue on a virtual clock and against a reference schedule; actions may themselves '
-        'schedule or cancel. Non-trivial = a new earliest deadline was scheduled while the worker '
+        'schedule or cancel; one plan in 16 starts after ~65500 earlier Schedule calls on the same queue. Non-trivial = a new earliest deadline was scheduled while the worker '
         'slept on a later one, or the current head was cancelled, or two pending deadlines tie '
         'after rounding. distinct = distinct non-trivial plans.')
 ASSUMPTIONS = [
@@ -64,8 +64,14 @@ def strategy(tier):
   )
   return st.fixed_dictionaries({
       'resolution': st.sampled_from(sorted(MODES)),
+      # a long-lived queue: this many earlier Schedule calls (each cancelled at once) before the history starts
+      'churn': st.sampled_from([0] * 30 + [65500, 65530]),
       'ops': st.lists(op, max_size=50 if tier == 'quick' else 150),
   })
+
+
+def _noop():
+  pass
 
 
 class _Entry(object):
@@ -208,6 +214,11 @@ def execute(plan):
             raise Violation(ID, 'order', 'action %d (rounded %r, seq %d) ran after action %d (rounded %r, seq %d)' % (
                 first.id, first.R_lo, first.id, second.id, second.R_lo, second.id))
 
+    if plan.get('churn'):
+      for _ in range(plan['churn']):
+        q.Schedule(EPOCH - 1, _noop)()
+      flags_busy.add(2)
+      advance(0)
     for op in plan['ops']:
       if op[0] == 'schedule':
         do_schedule(now_u() + op[1], op[2])
@@ -241,6 +252,8 @@ def execute(plan):
   classes = ['res=' + plan['resolution']] + sorted(flags)
   if any(e.kind[0] != 'plain' and e.runs for e in entries):
     classes.append('action_schedules_or_cancels')
-  if flags_busy:
+  if 1 in flags_busy:
     classes.append('callback_kept_the_loop_busy')
+  if 2 in flags_busy:
+    classes.append('after_65k_earlier_schedule_calls')
   return Outcome(nontrivial=sorted(flags) if flags else None, classes=classes)
